@@ -1,12 +1,141 @@
-(* C05 (supervisor core) - INTERIM statement file: the full simulation theorem for mon_C05 is being
-   proved in Sup/RelC05.v; until it lands, this file states what is already machine-checked for every
-   accepted history of the Sup model: the observer's picture (on which the monitor holds_C05 is
-   evaluated) agrees with the model state. *)
+(* C05  Unsatisfiable dependency => the dependent is skipped, never launched.
+   This file contains only the property statements; every proof is `exact <lemma>` (Sup/RelC05.v).
+
+   Vocabulary.  A history is the list of trace points (thread, event) that the supervisor logs
+   (Sup/Model.v); [accept (init cs ord) evs = Some s] says that the model of the supervisor can produce
+   it for the project configuration [cs].  The events that matter here:
+     (th, EBegin i)          thread th starts to serve process instance i (for its whole life)
+     (th, EDepDone k false)  the wait of th's instance for its dependency k returned an error: the
+                             dependency ended / was stopped without satisfying the declared condition
+                             (non-zero exit code under process_completed_successfully, never ready under
+                             process_healthy / process_log_ready)
+     (th, ELaunch ok)        th's instance calls Commander.Start() (ok: whether it succeeded)
+     (th, EState i st)       status st is written for instance i (Skipped and Error also store exit code 1
+                             in the state record shared by all instances of the name)
+     (th, EExitCode c)       th's instance stores the exit code c of its command in that shared record
+     (th, EProcEnded i st)   onProcessEnd(st) of instance i is complete: i is reported as st
+
+   What the monitor checks.  The observer (Sup/Monitors.v) remembers per instance whether one of its
+   dependency waits reported failure ([o_depfail]) and per process name the reported exit code.
+   [holds_C05 cs evs = true] means that at every position of the history
+     (a)  a launch attempt (ELaunch, successful or not) is never made by an instance with o_depfail;
+     (b1) at EProcEnded i st: if i has o_depfail then st is Skipped (or Terminating: i was stopped while it
+          was still Pending), and if i does not have o_depfail then st is not Skipped;
+     (b2) at EProcEnded i Skipped of an instance with o_depfail the reported exit code of its name is not 0.
+   [mon_C05_core] is (a)+(b1), [mon_C05_code] is (b2); mon_C05 = mon_C05_core && mon_C05_code.
+
+   Windows.  [W_C05 o = w_dup o || w_zombie o]: the history went through the known check-then-act windows
+   F25 (a second instance of a name was created while an earlier one had not ended) or F38 (... while the
+   goroutine of an ended one still lived).  Only clause (b2) needs this hypothesis, because the exit code
+   is shared by all instances of a name: a concurrent instance of the SAME name can overwrite the 1 of the
+   skipped instance (C05_refuted is such a history).
+
+   Not covered by these theorems (monitor-only, checked on the implementation's histories by checks/C05.py):
+   that the reported code stays non-zero after EProcEnded, transitivity as a statement about dependents
+   (it follows from (b2) + the way EDepDone is computed from the shared record, and is exercised by the
+   example below), and the project exit code under exit_on_skipped (C04's monitor). *)
 From Coq Require Import List ZArith NArith Bool.
 From PC.Base Require Import Assoc.
-From PC.Sup Require Import Model Monitors RelCore Agreement RelC02.
+From PC.Sup Require Import Model Monitors Sim LemC05 RelC05.
+Import ListNotations.
 
-Theorem C05_observer_agrees_with_model : forall cs ord evs s,
-  accept (init cs ord) evs = Some s -> Rc cs s (final_obs cs evs).
-Proof. exact sup_agreement. Qed.
-Print Assumptions C05_observer_agrees_with_model.
+(* The full monitor holds on every accepted history that stayed out of the dup/zombie windows; all
+   configurations (any dependency graph, any conditions), all interleavings, all lengths. *)
+Theorem C05_main : forall cs ord evs s,
+  accept (init cs ord) evs = Some s -> W_C05 (final_obs cs evs) = false -> holds_C05 cs evs = true.
+Proof. exact C05_main_lemma. Qed.
+Print Assumptions C05_main.
+
+(* Clauses (a) and (b1) hold on EVERY accepted history - no window hypothesis. *)
+Theorem C05_core : forall cs ord evs s,
+  accept (init cs ord) evs = Some s -> holds cs mon_C05_core evs = true.
+Proof. exact C05_core_lemma. Qed.
+Print Assumptions C05_core.
+
+Theorem C05_monitor_split : forall cs o te, mon_C05 cs o te = mon_C05_core cs o te && mon_C05_code cs o te.
+Proof. exact mon_C05_split. Qed.
+Print Assumptions C05_monitor_split.
+
+(* Without the window hypothesis the full monitor is false of the model: clause (b2) fails in the history
+   RelC05.Witness.wit1 (52 events, goes through the F25 window only). *)
+Theorem C05_refuted : exists cs ord evs s,
+  accept (init cs ord) evs = Some s /\ holds_C05 cs evs = false.
+Proof. exact C05_refuted_lemma. Qed.
+Print Assumptions C05_refuted.
+
+(* Neither flag can be dropped from W_C05: one accepted history violates the monitor having gone through
+   the dup window only (wit1), another through the zombie window only (RelC05.Witness.wit2, 79 events). *)
+Theorem C05_windows_needed :
+  (exists cs ord evs s, accept (init cs ord) evs = Some s /\ w_zombie (final_obs cs evs) = false /\ holds_C05 cs evs = false) /\
+  (exists cs ord evs s, accept (init cs ord) evs = Some s /\ w_dup (final_obs cs evs) = false /\ holds_C05 cs evs = false).
+Proof. exact C05_windows_needed_lemma. Qed.
+Print Assumptions C05_windows_needed.
+
+(* (a) in words: once a thread has logged a failed dependency wait it never logs a launch attempt
+   (Commander.Start) again; a thread serves one instance, so: the dependent's command is never launched. *)
+Theorem C05_never_launched : forall cs ord p1 th k p2 ok p3 s,
+  accept (init cs ord) (p1 ++ (th, EDepDone k false) :: p2 ++ (th, ELaunch ok) :: p3) = Some s -> False.
+Proof. exact C05_never_launched_lemma. Qed.
+Print Assumptions C05_never_launched.
+
+(* (b1) in words: if the thread that serves instance i logged a failed dependency wait, every later
+   "process ended" report of i says Skipped - or Terminating, when it was stopped while still Pending. *)
+Theorem C05_ended_status : forall cs ord p0 th i p1 k p2 th' s0 p3 s,
+  accept (init cs ord)
+         (p0 ++ (th, EBegin i) :: p1 ++ (th, EDepDone k false) :: p2 ++ (th', EProcEnded i s0) :: p3) = Some s ->
+  s0 = SSkipped \/ s0 = STerminating.
+Proof. exact C05_ended_status_lemma. Qed.
+Print Assumptions C05_ended_status.
+
+(* exit_on_skipped: when the instance of a thread that logged a failed dependency wait fires its exit
+   trigger (which the model lets it do only if its configuration has exit_on_skipped), the trigger carries
+   exit code 1.  (Which trigger's code becomes the project's exit code is C04's subject.) *)
+Theorem C05_trigger_code : forall cs ord p1 th k p2 c p3 s,
+  accept (init cs ord) (p1 ++ (th, EDepDone k false) :: p2 ++ (th, EExitTrigger c) :: p3) = Some s -> c = 1%Z.
+Proof. exact C05_trigger_code_lemma. Qed.
+Print Assumptions C05_trigger_code.
+
+(* Non-vacuity: a chain A <- B <- C (process_completed_successfully), C has exit_on_skipped.  A exits with
+   code 1; B is refused, skipped, reported Skipped with code 1; C is refused in turn (transitivity) and
+   skipped; C's exit_on_skipped trigger fires with code 1.  49 events, accepted, outside every window, and
+   the monitor (which is exercised at 1 launch and 3 proc_ended events) holds. *)
+Module Example.
+Open Scope N_scope.
+Definition cA := mkConf [] PNo 0 0 false false false false false false false.
+Definition cB := mkConf [(1, CSuccess)] PNo 0 0 false false false false false false false.
+Definition cC := mkConf [(2, CSuccess)] PNo 0 0 false true false false false false false.
+Definition cs3 : amap pconf := [(1, cA); (2, cB); (3, cC)].
+Definition ex1 : list (tid * event) := [
+ (100, EApiBegin OpRun);
+ (100, ENewInst 10 1); (100, EState 10 SPending); (100, ERegAdd 10 1); (100, ESpawn 10 1);
+ (100, ENewInst 11 2); (100, EState 11 SPending); (100, ERegAdd 11 2); (100, ESpawn 11 2);
+ (100, ENewInst 12 3); (100, EState 12 SPending); (100, ERegAdd 12 3); (100, ESpawn 12 3);
+ (100, ERunSpawned);
+ (1, EBegin 10); (2, EBegin 11); (3, EBegin 12);
+ (2, EDoneGet 1 None); (2, ELookupMid 1); (2, ERegGet 1 (Some 10)); (2, EDepWait 1 (Some 10));
+ (3, EDoneGet 2 None); (3, ELookupMid 2); (3, ERegGet 2 (Some 11)); (3, EDepWait 2 (Some 11));
+ (1, ERunChecked false); (1, EStarted); (1, EState 10 SRunning); (1, ELaunch true);
+ (900, ECmdExit 10 1%Z);
+ (1, EWaitReturn 1%Z); (1, EExitCode 1%Z); (1, ERestartDecision false);
+ (1, EProcEnd 10 SCompleted); (1, EState 10 SCompleted); (1, EProcEnded 10 SCompleted);
+ (2, EDepDone 1 false); (2, ESkip); (2, EProcEnd 11 SSkipped); (2, EState 11 SSkipped); (2, EProcEnded 11 SSkipped);
+ (3, EDepDone 2 false); (3, ESkip); (3, EProcEnd 12 SSkipped); (3, EState 12 SSkipped); (3, EProcEnded 12 SSkipped);
+ (3, EDoneAdd 12); (3, EExitTrigger 1%Z); (3, EShutdownCall)
+].
+End Example.
+
+Example C05_nonvacuous :
+  (exists s, accept (init Example.cs3 false) Example.ex1 = Some s) /\
+  W_C05 (final_obs Example.cs3 Example.ex1) = false /\
+  length Example.ex1 = 49 /\
+  holds_C05 Example.cs3 Example.ex1 = true /\
+  (* the history contains failed dependency waits and Skipped reports, and the reported codes are 1 *)
+  In (2%N, EDepDone 1%N false) Example.ex1 /\ In (3%N, EProcEnded 12%N SSkipped) Example.ex1 /\
+  o_depfail (oi_get (final_obs Example.cs3 Example.ex1) 12%N) = true /\
+  o_launches (oi_get (final_obs Example.cs3 Example.ex1) 12%N) = 0 /\
+  r_code (on_get (final_obs Example.cs3 Example.ex1) 2%N) = 1%Z /\
+  r_code (on_get (final_obs Example.cs3 Example.ex1) 3%N) = 1%Z.
+Proof.
+  split; [|vm_compute; intuition].
+  destruct (accept (init Example.cs3 false) Example.ex1) as [s|] eqn:E; [eauto|vm_compute in E; discriminate E].
+Qed.
